@@ -6,6 +6,8 @@ INVARIANT NamesUnique
 INVARIANT CategorisedDefined
 INVARIANT CategorisedTakeArg
 INVARIANT JrelJabsDisjoint
+INVARIANT FrozenSetsAgree
+INVARIANT JumpOpsAreJumps
 INVARIANT ExtendedArgRight
 INVARIANT SameName
 INVARIANT SameHaveArg
